@@ -4,9 +4,29 @@ package main
 
 import (
 	"fmt"
+	"os"
 
-	_ "github.com/tokenized/spynode/internal/spynode"
-	_ "github.com/tokenized/spynode/pkg/client"
+	"github.com/tokenized/spynode/internal/verif/checks"
+	"github.com/tokenized/spynode/internal/verif/core"
 )
 
-func main() { fmt.Println("hello") }
+func main() {
+	if len(os.Args) >= 2 && os.Args[1] == "--worker" {
+		core.WorkerMain()
+		return
+	}
+	if len(os.Args) < 2 {
+		fmt.Fprintln(os.Stderr, "usage: check.bin <property-id> [--replay file]")
+		os.Exit(2)
+	}
+	id := os.Args[1]
+	c, ok := checks.All[id]
+	if !ok {
+		fmt.Fprintf(os.Stderr, "unknown check %s\n", id)
+		os.Exit(2)
+	}
+	if len(os.Args) >= 4 && os.Args[2] == "--replay" {
+		os.Exit(checks.Replay(id, os.Args[3]))
+	}
+	os.Exit(c())
+}
